@@ -33,7 +33,8 @@ ASSUMPTIONS = ["virtual time: timers fire when the driver reaches their "
 REQUIRED = ["programs", "steps_checked", "timed_resumes", "select_timeouts",
             "select_ready", "wakes", "subtask_returns", "subtask_raises",
             "tasks_raised", "timer_fires", "timers_cancelled", "quiescent_checks",
-            "programs_natural_drive", "natural_select_timeouts"]
+            "programs_natural_drive", "natural_select_timeouts",
+            "nested_subtask_returns", "nested_subtask_raises"]
 TIMEOUT = {"quick": 1200, "thorough": 9000}
 
 _st = {}
@@ -97,8 +98,33 @@ def run_program (case, rep):
   def leave ():
     state["running"] = None
 
+  def nested (tag, plan, use_tf):
+    """The sub-task's own sub-task call, judged like the caller's."""
+    ip = plan["inner"]
+    itag = tuple(tag) + ("i",)
+    try:
+      if use_tf: iv = yield tf_sub(itag, ip)
+      else: iv = yield rc.Again(sub(itag, ip))
+      if ip["end"] == "raise":
+        errs.append(("sub-task exception did not reach its caller",
+                     "nested call %r got value %r" % (itag, iv)))
+      elif iv != ip["value"]:
+        errs.append(("sub-task result did not reach its caller",
+                     "nested call %r got %r expected %r" % (itag, iv, ip["value"])))
+      else:
+        rep.count("nested_subtask_returns")
+    except ValueError as e:
+      if ip["end"] != "raise" or repr(itag) not in str(e):
+        errs.append(("caller received another sub-task's exception",
+                     "nested call %r: %r" % (itag, e)))
+      else:
+        rep.count("nested_subtask_raises")
+      if plan.get("propagate"): raise
+
   def sub (tag, plan):
     """Sub-task body: some blocking ops, then return a value or raise."""
+    if plan.get("inner"):
+      yield rc.Again(nested(tag, plan, False))
     for d in plan["ops"]:
       enter(tag); leave()
       t0 = clock.now
@@ -115,6 +141,8 @@ def run_program (case, rep):
 
   @rc.task_function
   def tf_sub (tag, plan):
+    if plan.get("inner"):
+      yield rc.Again(nested(tag, plan, True))
     for d in plan["ops"]:
       yield rc.Sleep(d)
     if plan["end"] == "raise":
@@ -210,11 +238,21 @@ def run_program (case, rep):
       elif kind in ("again", "tf"):
         plan = st[1]
         nt[0] = True
+        ip = plan.get("inner")
+        exp_raise = plan["end"] == "raise"
+        exp_tag = (tid, k)
+        min_time = sum(plan["ops"])
+        if ip:
+          min_time = sum(ip["ops"])
+          if ip["end"] == "raise" and plan.get("propagate"):
+            exp_raise = True; exp_tag = (tid, k, "i")
+          else:
+            min_time += sum(plan["ops"])
         try:
           if kind == "again": v = yield rc.Again(sub((tid, k), plan))
           else: v = yield tf_sub((tid, k), plan)
           enter(tid)
-          if plan["end"] == "raise":
+          if exp_raise:
             errs.append(("sub-task exception did not reach its caller",
                          "task %s step %d got value %r" % (tid, k, v)))
           elif v != plan["value"]:
@@ -225,12 +263,12 @@ def run_program (case, rep):
             rep.count("subtask_returns")
         except ValueError as e:
           enter(tid)
-          if plan["end"] != "raise" or str((tid, k)) not in str(e):
+          if not exp_raise or str(e) != "sub-task %s fails" % (exp_tag,):
             errs.append(("caller received another sub-task's exception",
                          "task %s step %d: %r" % (tid, k, e)))
           else:
             rep.count("subtask_raises")
-        if clock.now < t0 + sum(plan["ops"]) - 1e-9:
+        if clock.now < t0 + min_time - 1e-9:
           errs.append(("caller resumed before its sub-task finished", ""))
       elif kind == "raise":
         enter(tid)
@@ -443,6 +481,11 @@ def rand_step (rng, tid, ntasks, blocks):
     plan = dict(ops=[rng.choice([0.5, 1, 2]) for _ in range(rng.randrange(0, 3))],
                 end=rng.choice(["ret", "ret", "raise"]),
                 value="v-%d-%d" % (tid, rng.getrandbits(16)))
+    if rng.random() < 0.4:
+      plan["inner"] = dict(ops=[rng.choice([0.5, 1]) for _ in range(rng.randrange(0, 2))],
+                           end=rng.choice(["ret", "raise", "raise"]),
+                           value="i-%d-%d" % (tid, rng.getrandbits(16)))
+      plan["propagate"] = rng.random() < 0.5
     return [rng.choice(["again", "tf"]), plan]
   return ["y0"]
 
@@ -484,7 +527,11 @@ def gen_small ():
   V = [["y0"], ["num", 1], ["sleep", 2], ["sel_to", 1], ["sel_data", 1.5, None],
        ["again", dict(ops=[1], end="ret", value="x")],
        ["again", dict(ops=[], end="raise", value="x")],
-       ["tf", dict(ops=[0.5], end="ret", value="y")], ["raise"]]
+       ["tf", dict(ops=[0.5], end="ret", value="y")], ["raise"],
+       ["again", dict(ops=[0.5], end="ret", value="z", propagate=False,
+                      inner=dict(ops=[0.5], end="raise", value="q"))],
+       ["tf", dict(ops=[], end="ret", value="z", propagate=True,
+                   inner=dict(ops=[], end="raise", value="q"))]]
   progs = [[]] + [[a] for a in V] + [[a, b] for a in V for b in V if a[0] != "raise"]
   for p1 in progs:
     for p2 in progs:
